@@ -6,7 +6,7 @@ ID = "C16"
 MODULES = ["IoraModel.Props.C16"]
 LEANCHECK = ["IoraModel.Props.C16", "IoraModel.Lemmas.HttpRespond", "IoraModel.Lemmas.HttpRespondConn", "IoraModel.Lemmas.HttpRespondFramer",
              "IoraModel.Model.HttpRespondBase", "IoraModel.Model.HttpServerRespond", "IoraModel.Model.HttpRespondScript", "IoraModel.Model.HttpRespondConn",
-             "IoraModel.Gen.HttpRespond"]
+             "IoraModel.Gen.HttpRespond", "IoraModel.Model.HttpRespondRestart", "IoraModel.Lemmas.HttpRespondRestart"]
 OBLIGATIONS = []      # filled from OBLIGATION_TABLE below
 ANCHOR_FILES = ["include/iora/network/http_server.hpp", "include/iora/core/thread_pool.hpp", "include/iora/parsers/http_message.hpp"]
 COMPONENT = "httprespond"
@@ -42,9 +42,18 @@ C16_O5|Iora.C16.O5_framer_recovers|proved|the reference HTTP/1.1 framer applied 
 C16_O5_process|Iora.C16.O5_process_wire_safe|proved|what processHttpRequest sends for a parsed request is wire-safe whenever the handler left token field names, no LF in values, no Transfer-Encoding, a status in 200..999 and an API-consistent body (or a 204/304, whose body and Content-Length are dropped under every method after the FC16a repair)
 C16_O5_e2e|Iora.C16.O5_end_to_end|proved|capstone: responses wire-safe + fitting the socket buffer + issued in order (optionally followed by Close) => for every kernel / event-loop behaviour the reference framer splits what the client reads into exactly those responses
 C16_O1_wire|Iora.C16.O1_wire_partial|partial|pool + engine + framer composed: under OneInFlight, no overflow, workers idle and FitsBuffer, if the commands of a session's requests are the Sends of wire-safe responses rs (+ at most one final Close), the bytes the client reads split into exactly rs, in request order, for every kernel / event-loop behaviour
+C16_O1_drain|Iora.C16.O1_upgrade_drain|proved|accepted upgrade with bytes of the upgraded protocol buffered behind the request: the calls are the upgrade response (if the transport is up) followed by at most one Close, and the Close exactly when the virtual onUpgradedData threw (std or not) with the transport still up; never a second Send (FC16c repaired: the drain has its own catch (...) -> closeSession; on the unrepaired tree Gen.upgradeDrainGuarded is false and drainCalls_eq / processCalls_shape do not build)
+C16_O1_overflow_env|Iora.C16.O1_overflow_every_env|proved|sendErrorResponse on pool overflow in every environment: nothing while `_transport && !_shutdown` fails, otherwise 503 Send + Close, and the Close also when the engine refused the Send (never open-and-unanswered); on a running server these are the overflowCmds of the pool theorems
+C16_O1_restart|Iora.C16.O1_restart|proved|across any schedule of arrivals, picks, emits, stop() and start() calls on one HttpServer object every engine command reaches the transport its request arrived on — a worker that outlives stop()'s 2 s drain wait never addresses the next transport, whose session ids start at 1 again (FC16e repaired: epoch captured at dispatch, compared inside all 7 guarded blocks; does not build on the unrepaired tree)
+C16_O1_restart_unguarded|Iora.C16.O1_restart_unguarded_refuted|proved|what FC16e's repair prevents: for the worker without the epoch check the statement is false (witness: arrive on session 1, pick, stop, start, emit: a generation-0 request's Send is delivered by the generation-1 transport)
+C16_O1_restart_drained|Iora.C16.O1_restart_partial_drained|proved|with or without the epoch check: if start() is only called when no task of the previous run is left, every command reaches the transport its request arrived on
+C16_O4_head_refuted|Iora.C16.O4_head_refuted|refuted|FC16d: `a HEAD response has no body` at full strength is false: the error arm, the shutdown arm and sendErrorResponse never look at the method (witness: `HEAD / HTTP/1.1` without Host => 400 + Content-Length: 11 + the 11 bytes `Bad Request`)
+C16_O4_head_partial|Iora.C16.O4_head_partial_normal_path|partial|FC16d partial: on the normal path (parsed, no upgrade taken, not suppressed) the response to HEAD is toWire st text H [] — not one byte behind the header section
+C16_gen_restart|Iora.C16.gen_restart_and_write_queue|proved|Gen conformance: the dispatch lambda carries the transport epoch and every guarded block of the worker checks it, stop() waits 2 s, and poolQueueCap <= maxWriteQueue (start()'s config)
 C16_gen_methods|Iora.C16.gen_methods|proved|Gen conformance: HttpMethod enumerators and parseMethod table agree with the model's Method type
 C16_gen_shape|Iora.C16.gen_connection_tokenised|proved|Gen conformance: the Connection decision found in the source is the tokenised one (F33 repaired) and the 204/304 reconciliation applies to every method (FC16a repaired)
-C16_gen_session|Iora.C16.gen_session_fields_never_written|proved|Gen conformance: SessionInfo::httpVersion / connectionKeepAlive are never assigned, so the session half of the decision is constant
+C16_gen_session|Iora.C16.gen_session_defaults|proved|Gen conformance: a default-constructed SessionInfo (version 1.1, keep-alive) never asks for close by itself; how many assignments to httpVersion / connectionKeepAlive exist in http_server.hpp is reported as an observation (evidence: session_field_writes), not pinned — a fix that starts honouring HTTP/1.0 must not fail the proof layer
+C16_gen_parse_table|Iora.C16.gen_parse_status_table|proved|Gen conformance: each throw site of parseRequestLine / fromWireFormat / parseMethod carries the RFC status the model documents (414 target too long, 501 unknown method, 505 unsupported major, 400 for the other nine)
 """
 for _l in OBLIGATION_TABLE.strip().splitlines():
     _i, _t, _k, _s = _l.split("|", 3)
@@ -53,6 +62,8 @@ for _l in OBLIGATION_TABLE.strip().splitlines():
         o["finding"] = "F28"
     if "F31" in _s:
         o["finding"] = "F31"
+    if "FC16d" in _s and _k != "proved":
+        o["finding"] = "FC16d"
     OBLIGATIONS.append(o)
 
 NOT_PROVED = [
@@ -62,7 +73,18 @@ NOT_PROVED = [
     "the pool model (FIFO pop, w workers, one engine command per `_mutex` section) is tied by lockstep on gate-controlled schedules (handlers park at gates, "
     "the op script chooses the completion order; one or two requests per read) and by the end-to-end acceptor; preemption INSIDE processHttpRequest between its two "
     "`_mutex` sections (Send, then Close) is in the model (`emit` per command) but is not forced in the harness; the pool model is of a running server "
-    "(the `_transport && !_shutdown` guard of sendErrorResponse on the overflow path is not in it; shutdown is covered per call by `Env`)",
+    "(sendErrorResponse's guard and a refused Send on the overflow path are modelled per call, `overflowCalls env` / O1_overflow_every_env, and driven by the "
+    "`overflow <req> <bits>` op; its `catch (const std::exception &)` force-close branch — an exception out of toWireFormat / sendAsync — is not modelled)",
+    "`a HEAD response has no body` at full strength is false (FC16d, refuted): the error arm, the shutdown arm and sendErrorResponse ignore the method; proved on the normal path "
+    "(O4_head_no_body, O4_head_partial_normal_path)",
+    "across stop()/start() on one server object (FC16e, repaired) the restart model abstracts the server to (generation, up, tasks, log); what a HANDLER sends through the "
+    "sid-addressed API (sendRaw / sendRawForSse / closeSession, and the upgrade drain's closeSession) after a restart has the same exposure as the unrepaired dispatcher had and is "
+    "outside the model — stop() still gives up on running handlers after 2 s",
+    "the buffer drain of the upgrade arm is modelled on the worker thread only (O1_upgrade_drain); onUpgradedData called directly by the I/O thread for later reads of an upgraded session "
+    "(handleIncomingData's first block) has no try at all and is outside the model, as is what the hook itself sends (sendRaw)",
+    "Gen facts consumed only by the model's definitions (wire text / driver parameters) and tied by lockstep, no theorem depends on their value: maxRequestTargetSize, listValuedHeaders, "
+    "serverHeader, statusTexts, poolInitial, poolMax, sessionDefaultVersion; pinned by a conformance theorem: the parser statuses (gen_parse_status_table), poolQueueCap <= maxWriteQueue, "
+    "stopDrainSeconds, dispatchChecksGeneration, upgradeDrainGuarded (gen_restart_and_write_queue, O1_upgrade_drain)",
     "O4_close speaks about the request's Connection value as parsed: repeated Connection field-lines are last-wins (addOrCombineHeader allow-list), "
     "so `Connection: close` followed by a second Connection line without `close` does not close (observation, not repaired: the allow-list is tested behaviour)",
     "O5 assumes the handler put no LF in field values, field names are tokens, no Transfer-Encoding, and a status in 200..999",
@@ -74,6 +96,8 @@ NOT_PROVED = [
 
 KEY_F28 = "pipelined-slow-then-fast"
 KEY_F31 = "connection-close-24MiB-slow-reader"      # the key is the finding's name; the body is sized from the host's socket buffers (>= 24 MiB)
+KEY_HEAD = "head-error-arms-carry-body"
+WHAT_HEAD = "a HEAD request answered outside the normal path (400 parse reject, 500 of a throwing seam, 503 at shutdown, 503 on pool overflow) gets the arm's body bytes"
 WHAT_F28 = "pipelined requests are handled by different pool threads and answered in completion order (GET /slow then GET /fast on one connection: FAST response first)"
 WHAT_F31 = "Connection: close + a response larger than the socket buffer: the Close command discards the unsent tail of the write queue (body truncated)"
 
@@ -377,7 +401,7 @@ def mutate(rng, data):
     return bytes(w)
 
 
-ENVS = [("010111", 30), ("110111", 2), ("100111", 1), ("011111", 2), ("010011", 2), ("010101", 2), ("010110", 1), ("110011", 1), ("111111", 1), ("011011", 1)]
+ENVS = [("010111", 30), ("110111", 2), ("110101", 1), ("110001", 1), ("100111", 1), ("011111", 2), ("010011", 2), ("010101", 2), ("010110", 1), ("110011", 1), ("111111", 1), ("011011", 1)]
 
 
 def pick_env(rng):
@@ -429,6 +453,12 @@ def gen_lockstep_cases(ctx, rng, n_cases):
             else:
                 data, info = gen_structured_request(rng, routes)
                 data = mutate(rng, data)
+                info = {"method": "?", "wellformed": False, "mutated": True, "upgrade": False, "conn_last": None}
+            if rng.chance(1, 25):
+                # whitespace between a field name and its colon (RFC 9112 5.1): rejected with 400 once FC15d is in the tree, trimmed and accepted before —
+                # the model follows the translator fact, the monitors make no assumption about which
+                nm, val = rng.choice([(b"X-Pad ", b"1"), (b"Host\t", b"example.test"), (b"Content-Length ", b"0"), (b"Connection ", b"close"), (b"X-A : b", b"c")])
+                data = build_request(rng, rng.choice([b"GET", b"HEAD", b"POST"]), rng.choice([b"/", b"/a", b"/nope"]), extra=[(nm, val)], host=nm[:4] != b"Host")
                 info = {"method": "?", "wellformed": False, "mutated": True, "upgrade": False, "conn_last": None}
             env = pick_env(rng)
             sess = rng.choice(["d"] * 12 + ["-", "v10", "nka"])
@@ -539,6 +569,42 @@ def gen_seam_cases(ctx, rng, n):
     return cases
 
 
+def ws_frame(rng):
+    """a masked client text frame: what a WebSocket client may send right behind its upgrade request"""
+    payload = rng.bytes(rng.range(0, 20))
+    mask = rng.bytes(4)
+    return bytes([0x81, 0x80 | len(payload)]) + mask + bytes(b ^ mask[i % 4] for i, b in enumerate(payload))
+
+
+def gen_drain_cases(ctx, rng, n):
+    """Accepted upgrade + bytes of the upgraded protocol behind the request in the same read: the worker feeds them to the third
+    virtual hook (onUpgradedData) AFTER the upgrade response went out.  One request => the 101 and nothing else, whatever the hook does."""
+    cases = []
+    for _ in range(n):
+        mode = rng.choice(["0", "thr", "thx", "thr", "thx"])
+        up_sc = rng.choice(["st:101," + sc_header(b"Upgrade", b"websocket"), "st:101", "st:101," + sc_header(b"Upgrade", b"websocket") + "," + sc_header(b"Connection", b"Upgrade"),
+                            "st:200," + sc_content(b"switched")])
+        ops = ["reset", "route GET %s %s" % (hexs(b"/a"), sc_content(b"alpha")), "hook upgrade %s" % up_sc, "hook drain %s" % mode]
+        first = len(ops)
+        reqs = []
+        for _ in range(rng.range(1, 4)):
+            meth, path = rng.choice([(b"GET", b"/ws"), (b"GET", b"/a"), (b"HEAD", b"/a"), (b"POST", b"/ws")])
+            d = build_request(rng, meth, path, upgrade=(rng.choice([b"Upgrade", b"upgrade", b"UPGRADE"]), b"websocket"), conn=rng.choice([None, b"Upgrade", b"keep-alive, Upgrade"]),
+                              body=b"xy" if meth == b"POST" else b"")
+            residual = b"" if rng.chance(1, 5) else ws_frame(rng)
+            env = pick_env(rng) if rng.chance(1, 3) else "010111"
+            sess = rng.choice(["d"] * 8 + ["-", "v10"])
+            ops.append("req %s %s %s %s" % (hexs(d), env, sess, hexs(residual)))
+            reqs.append({"method": meth.decode(), "wellformed": True, "env": env, "sess": sess, "upgrade": True, "conn_last": None,
+                         "drain": mode, "residual": len(residual) > 0 and sess != "-"})
+        cases.append({"cat": "upgrade-drain", "ops": ops, "first_req": first, "reqs": reqs, "api_only": False, "may_suppress": False,
+                      "hook_upgrade": True, "scripts": []})
+    return cases
+
+
+OVERFLOW_ENVS = ["101", "001", "001", "111", "100", "011", "000"]      # bits: enqueueOk, _shutdown, transport present (101 = running server)
+
+
 def gen_dispatch_cases(ctx, rng, n):
     """The same decision through the real I/O-thread path: handleIncomingData -> tryEnqueue -> pool worker."""
     cases = []
@@ -558,6 +624,11 @@ def gen_dispatch_cases(ctx, rng, n):
             ops.append("dispatch %s" % hexs(d))
         cases.append({"cat": "dispatch", "ops": ops, "first_req": 3, "reqs": None})
     cases.append({"cat": "overflow", "ops": ["reset", "overflow %s" % hexs(b"GET / HTTP/1.1\r\nHost: x\r\n\r\n")], "first_req": 1, "reqs": None})
+    # sendErrorResponse in every environment (guard false / engine refuses the Send), also for a HEAD request
+    for bits in OVERFLOW_ENVS:
+        meth = rng.choice([b"GET", b"HEAD", b"POST"])
+        d = build_request(rng, meth, b"/x", body=b"abc" if meth == b"POST" else b"")
+        cases.append({"cat": "overflow-env", "ops": ["reset", "overflow %s %s" % (hexs(d), bits)], "first_req": 1, "reqs": None, "overflow_bits": bits})
     return cases
 
 
@@ -718,10 +789,29 @@ def parse_outcome(l):
 
 def monitor_case(c, impl):
     bad = []
+    if c["cat"] == "overflow-env":
+        bits = c["overflow_bits"]
+        enq, shut, trp = bits[0] == "1", bits[1] == "1", bits[2] == "1"
+        l = impl[c["first_req"]]
+        o = parse_outcome(l)
+        if l.startswith("throw") or l.startswith("crash:") or o["kind"] in ("unexpected-commands", "unexpected-session", "late-commands", "pool-not-idle", "?"):
+            bad.append("O1: sendErrorResponse on pool overflow threw / crashed / issued an impossible command sequence (env %s): %s" % (bits, l[:80]))
+        elif not shut and trp:
+            if enq and (o["kind"] != "respond" or not o["close"]):
+                bad.append("O1: pool overflow on a running server must give one 503 followed by a close, got %s" % l[:80])
+            if not enq and not (o["kind"] == "sendfailed" and o["close"]):
+                bad.append("O1: pool overflow while the engine refuses the Send: the connection must still be closed (the request is otherwise neither answered "
+                           "nor is its connection ended), got `%s`" % l[:80])
+        return bad
     if c["cat"] in ("dispatch", "overflow"):
         for op, l in zip(c["ops"][c["first_req"]:], impl[c["first_req"]:]):
+            if not op.startswith(("dispatch", "overflow")):
+                continue
             o = parse_outcome(l)
-            if o["kind"] != "respond":
+            if o["kind"] == "unexpected-commands" and l.split()[-1].count("S") + l.split()[-1].count("F") >= 2:
+                bad.append("O1: one request dispatched through handleIncomingData/the pool produced %d sendAsync calls (engine events %s) — a second response for the same request: %s"
+                           % (l.split()[-1].count("S") + l.split()[-1].count("F"), l.split()[-1], op[:100]))
+            elif o["kind"] != "respond":
                 bad.append("O1: a request dispatched through handleIncomingData/the pool got `%s` instead of exactly one response: %s" % (l[:60], op[:80]))
             elif c["cat"] == "overflow":
                 st, _, fields, malformed = parse_head(o["head"])
@@ -734,9 +824,24 @@ def monitor_case(c, impl):
         o = parse_outcome(l)
         env = r["env"]
         up = env == "010111"
+        if o["kind"] == "unexpected-commands" and l.split()[-1].count("S") + l.split()[-1].count("F") >= 2:
+            bad.append("O1: one request produced %d sendAsync calls (engine events %s: S = Send accepted, F = refused, X = Close) — a second response for the same request: %s"
+                       % (l.split()[-1].count("S") + l.split()[-1].count("F"), l.split()[-1], op[:100]))
+            continue
         if l.startswith("throw") or l.startswith("crash:") or o["kind"] in ("unexpected-commands", "unexpected-session", "?"):
             bad.append("O1: processHttpRequest threw / crashed / issued an impossible command sequence: %s -> %s" % (op[:80], l[:80]))
             continue
+        if up and o["kind"] == "closeonly":
+            bad.append("O1: a complete request got a close and no response although the server is up: %s" % op[:100])
+            continue
+        if c["cat"] == "upgrade-drain" and up and r["sess"] != "-":
+            # the generator knows what it scripted: accepted upgrade => the hook's response; a Close exactly when buffered bytes met a throwing hook
+            want_close = r["residual"] and r["drain"] != "0"
+            if o["kind"] != "respond" or o["close"] != want_close:
+                bad.append("O1: accepted upgrade, %s bytes buffered behind the request, onUpgradedData %s: want the upgrade response %s, got `%s`: %s"
+                           % ("some" if r["residual"] else "no", {"0": "returns", "thr": "throws std::exception", "thx": "throws a non-std type"}[r["drain"]],
+                              "followed by a close" if want_close else "and no close", l[:60], op[:80]))
+                continue
         if up:
             if o["kind"] == "sendfailed":
                 bad.append("O1: a complete request got no response although the server is up: %s -> %s" % (op[:100], l[:40]))
@@ -845,6 +950,10 @@ def e2e_request(rng, rid, allow_close, allow_head, delays):
     elif k < 23 and allow_head:
         d = build_request(rng, b"HEAD", rng.choice([b"/s0?id=%d" % rid, b"/created", b"/missing", b"/only-put", b"/big"]))
         meth = "HEAD"
+    elif k == 23:
+        # HTTP/1.0 (with or without Host): answered with an HTTP/1.1 response and kept alive (SessionInfo::httpVersion is never written)
+        d = build_request(rng, b"GET", b"/s0?id=%d" % rid, version=b"HTTP/1.0", host=rng.chance(1, 2))
+        meth = "GET"
     else:
         d = build_request(rng, b"GET", b"/s0?id=%d" % rid)
         meth = "GET"
@@ -852,7 +961,13 @@ def e2e_request(rng, rid, allow_close, allow_head, delays):
 
 
 def e2e_closing_request(rng, rid):
-    k = rng.below(6)
+    k = rng.below(8)
+    if k == 6:
+        # HEAD that closes on the normal path: no body byte before the EOF
+        return build_request(rng, b"HEAD", rng.choice([b"/s0?id=%d" % rid, b"/big", b"/missing"]), conn=rng.choice([b"close", b"TE, close"])), "HEAD"
+    if k == 7:
+        # HEAD that ends in the error arm: the arm's body follows (recorded finding FC16d: the model predicts it, the framer is told `not HEAD`)
+        return build_request(rng, b"HEAD", b"/s0", host=False), "?"
     if k < 3:
         return build_request(rng, b"GET", b"/s0?id=%d" % rid, conn=rng.choice([b"close", b"Close", b"TE, close", b"keep-alive, close"])), "GET"
     if k == 3:
@@ -1130,6 +1245,16 @@ def judge_conn(c, obs, eof, timed_out, f28_ok, counts):
 def run_e2e(ctx, hb, rng, n_scen, f28_ok, counts):
     scen_all = fixed_e2e_scenarios() + gen_e2e_scenarios(rng, n_scen)
     predict(ctx, scen_all)
+    kinds = {}
+    for s in scen_all:
+        for c in s["conns"]:
+            for r in c["reqs"]:
+                rl = r["data"].split(b"\r\n", 1)[0].split(b" ")
+                p = r.get("pred") or {}
+                st = parse_head(p["head"])[0] if p.get("kind") == "respond" else p.get("kind")
+                k = "%s %s %s -> %s%s" % (c["mode"], rl[0].decode("latin1")[:8], rl[-1].decode("latin1")[:8], st, " +close" if p.get("close") else "")
+                kinds[k] = kinds.get(k, 0) + 1
+    counts["e2e_requests_by_kind (connection mode, method, version -> predicted status)"] = dict(sorted(kinds.items()))
     setup = ["reset"] + ["route %s %s %s" % (m, hexs(p), s) for m, p, s in E2E_ROUTES] + ["e2e start"]
     base = len(setup)
     nreq = 0
@@ -1296,8 +1421,12 @@ def replay_findings(ctx, hb, keys):
     # body of the F31 witness: beyond what the socket buffers of this host can absorb (>= 24 MiB, >= 8 x the send-buffer maximum,
     # >= 2 x send + receive maxima), but not more than the harness should allocate
     huge = min(max(24 << 20, 8 * wmax, 2 * bound), 128 << 20)
-    if huge < bound + (16 << 20):
-        raise RuntimeError("socket buffers of this host (%d bytes) are too large to replay F31 with a body the harness can allocate" % bound)
+    f31_replayable = huge >= bound + (16 << 20)
+    if not f31_replayable:
+        # not a property failure and not a broken tie: this host's socket buffers can absorb any body the harness may allocate, so the
+        # truncation cannot be provoked here.  The refutation (O4p_refuted) stands; the replay is skipped and the evidence says so.
+        ctx.extra["finding_replay_skipped"] = {"F31": "socket buffers of this host (%d bytes) exceed what a %d-byte body can overflow" % (bound, huge)}
+        huge = 1 << 20
     slow = b"GET /slow HTTP/1.1\r\nHost: a\r\n\r\n"
     fast = b"GET /fast HTTP/1.1\r\nHost: a\r\n\r\n"
     hreq = b"GET /huge HTTP/1.1\r\nHost: a\r\nConnection: close\r\n\r\n"
@@ -1346,26 +1475,64 @@ def replay_findings(ctx, hb, keys):
             res["F31"] = (eof == "1" and got < huge)
     except Exception as ex:      # malformed harness output
         res["error"] = "%s: %s / %s" % (type(ex).__name__, ex, [x[:80] for x in out[base:base + 5]])
+    # ---- FC16d: HEAD answered outside the normal path (lockstep harness, real processHttpRequest / sendErrorResponse)
+    head_nohost = b"HEAD / HTTP/1.1\r\n\r\n"
+    head_ok = b"HEAD / HTTP/1.1\r\nHost: a\r\n\r\n"
+    head_up = b"HEAD / HTTP/1.1\r\nHost: a\r\nUpgrade: h2c\r\n\r\n"
+    hops = ["reset", "req %s 010111 d" % hexs(head_nohost), "req %s 110111 d" % hexs(head_ok), "hook upgrade thr", "req %s 010111 d" % hexs(head_up),
+            "overflow %s 101" % hexs(head_ok)]
+    hout, hrc, herr = ctx.run_lines([hb], hops, timeout=120)
+    try:
+        arms = {}
+        for name, i in (("400 parse reject", 1), ("503 shutdown arm", 2), ("500 throwing seam", 4), ("503 pool overflow", 5)):
+            o = parse_outcome(hout[i])
+            st = parse_head(o["head"])[0] if o["kind"] == "respond" else None
+            arms[name] = (st, o.get("bodylen"))
+        res["FC16d"] = arms["400 parse reject"][0] == 400 and (arms["400 parse reject"][1] or 0) > 0
+        res["FC16d_detail"] = "HEAD request, (status, body bytes on the wire) per arm: %s" % arms
+    except Exception as ex:
+        res["error"] = "FC16d: %s: %s / %s" % (type(ex).__name__, ex, [x[:80] for x in hout])
+    # ---- FC16e: stop() + start() on one server object while a handler is still running (real server on loopback)
+    hold = b"GET /hold HTTP/1.1\r\nHost: a\r\n\r\n"
+    rops = ["reset", "route GET %s sleep:3500,%s" % (hexs(b"/hold"), sc_content(b"SECRET-OF-CLIENT-A")), "e2e start", "e2e restart 2600 %s" % hexs(hold), "e2e stop"]
+    rout, rrc, rerr = ctx.run_lines([hb], rops, timeout=120)
+    try:
+        m = re.fullmatch(r"restart B=(\S+) A=(\S+)", rout[3])
+        got_b = b"" if m.group(1) == "-" else unhex(m.group(1))
+        res["FC16e_regression"] = "client B (connected after the restart, sent nothing) received %d bytes%s" % (len(got_b), (": %r" % got_b[:160]) if got_b else "")
+        if got_b:
+            other.append("FC16e regression: stop() gave up on a running handler, start() on the same HttpServer object, and a client that sent nothing received %d bytes "
+                         "(a response addressed by a stale session id): %r" % (len(got_b), got_b[:200]))
+    except Exception as ex:
+        ctx.violation("correspondence", "FC16e regression scenario (stop()/start() with a running handler) could not be run: %s: %s / %s" % (type(ex).__name__, ex, [x[:80] for x in rout]),
+                      {"broken": {"correspondence": "restart scenario against the real server on loopback", "detail": str(rout)[:500]}, "ops": rops}, found_input=False)
     ctx.extra["finding_replay"] = {k: v for k, v in res.items()}
     for o in other:
-        ctx.violation("property", "O4': " + o if o.startswith("F31") else "O2: " + o, {"witness": o, "ops": [x[:300] for x in ops]}, found_input=True)
+        ctx.violation("property", "O4': " + o if o.startswith("F31") else ("O1: " + o if o.startswith("FC16e") else "O2: " + o),
+                      {"witness": o, "ops": [x[:300] for x in (rops if o.startswith("FC16e") else ops)]}, found_input=True)
     wit28 = {"routes": "GET /slow = sleep 300 ms + set_content(SLOW); GET /fast = set_content(FAST)", "one_write": (slow + fast).decode(), "observed": res.get("F28_detail")}
     wit31 = {"route": "GET /huge = set_content(%d bytes)" % huge, "request": "GET /huge HTTP/1.1 + Connection: close; client starts reading after 1.5 s", "observed": res.get("F31_detail")}
-    for fid, key, what, wit, thm in (("F28", KEY_F28, WHAT_F28, wit28, "Iora.C16.O3_refuted"), ("F31", KEY_F31, WHAT_F31, wit31, "Iora.C16.O4p_refuted")):
+    wit_head = {"ops": hops, "decoded": [show_op(o) for o in hops], "observed": res.get("FC16d_detail")}
+    clause = {"F28": "O3", "F31": "O4'", "FC16d": "O4"}
+    skip = set() if f31_replayable else {"F31"}
+    for fid, key, what, wit, thm in (("F28", KEY_F28, WHAT_F28, wit28, "Iora.C16.O3_refuted"), ("F31", KEY_F31, WHAT_F31, wit31, "Iora.C16.O4p_refuted"),
+                                     ("FC16d", KEY_HEAD, WHAT_HEAD, wit_head, "Iora.C16.O4_head_refuted")):
         listed = key in keys
         still = res.get(fid)
+        if fid in skip:
+            continue
         if still is None:
             ctx.violation("correspondence", "%s: the witness of recorded finding %s could not be replayed: %s" % (fid, fid, res.get("error", "?")),
                           {"broken": {"correspondence": "finding replay", "detail": str(res)}}, found_input=False)
         elif still and listed:
             ctx.known_lines.append("KNOWN-FINDING: property=C16 id=%s key=%s %s (%s)" % (fid, key, what, res.get(fid + "_detail")))
         elif still:
-            ctx.violation("property", "%s: %s — reproduces and finding %s (key=%s) is not listed in KNOWN_FINDINGS.txt" % ("O3" if fid == "F28" else "O4'", what, fid, key),
+            ctx.violation("property", "%s: %s — reproduces and finding %s (key=%s) is not listed in KNOWN_FINDINGS.txt" % (clause[fid], what, fid, key),
                           {"witness": wit}, found_input=True)
         else:
             ctx.violation("correspondence", "%s: the witness of recorded finding %s no longer reproduces against the real code, but the model still refutes the statement (%s): "
                           "the model no longer corresponds to the code" % (fid, fid, thm),
-                          {"broken": {"theorem": thm, "correspondence": "finding replay against the real server on loopback", "detail": str(res)}, "witness": wit},
+                          {"broken": {"theorem": thm, "correspondence": "finding replay against the real code", "detail": str(res)}, "witness": wit},
                           found_input=False)
     return bool(res.get("F28")) and KEY_F28 in keys
 
@@ -1393,9 +1560,21 @@ def run(ctx: Ctx):
         cases += gen_oracle_cases(ctx, rng.fork("oracle"), 500 * scale)
         cases += gen_lockstep_cases(ctx, rng.fork("lock"), 1400 * scale)
         cases += gen_seam_cases(ctx, rng.fork("seam"), 60 * scale)
+        cases += gen_drain_cases(ctx, rng.fork("drain"), 80 * scale)
         cases += gen_dispatch_cases(ctx, rng.fork("disp"), 60 * scale)
         cases += gen_pool_cases(ctx, rng.fork("pool"), 150 * scale)
-        res = ctx.lockstep(COMPONENT, hb, cases, timeout=900)
+        cfile = os.path.join(ctx.work, "c16_counters.txt")
+        if os.path.exists(cfile):
+            os.remove(cfile)
+        res = ctx.lockstep(COMPONENT, hb, cases, timeout=900, impl_env={"C16_COUNTERS": cfile})
+        branch = {}
+        if os.path.exists(cfile):
+            for l in open(cfile):
+                t = l.split()
+                if len(t) == 2 and t[1].isdigit():
+                    branch[t[0]] = branch.get(t[0], 0) + int(t[1])
+            os.remove(cfile)
+        ctx.extra["branch_counters"] = dict(sorted(branch.items()))
         n_mismatch = 0
         outcome_kinds = {}
         envs = {}
@@ -1422,7 +1601,7 @@ def run(ctx: Ctx):
                 else:
                     counts["pool_schedules_in_order"] = counts.get("pool_schedules_in_order", 0) + 1
             # the engine cannot tell "suppressed" from "nothing to send": the model says why it is silent, the harness only that it is
-            model = ["silent" if l.startswith("silent ") else l for l in model]
+            model = [re.sub(r"^silent (nothing|suppressed)", "silent", l) for l in model]
             mism = [(i, a, b) for i, (a, b) in enumerate(zip(impl, model)) if a != b]
             if fails:
                 report_property(ctx, hb, c, impl, model, fails)
@@ -1440,11 +1619,21 @@ def run(ctx: Ctx):
         # the model's framer against the independent reference framer, on model-predicted streams
         cross_check_framer(ctx, rng.fork("framer"), 150 * scale)
         run_e2e(ctx, hb, rng.fork("e2e"), 260 if quick else 6000, f28_ok, counts)
-    ctx.extra["input_distribution"] = dist
+    ctx.extra["input_distribution"] = {"cases_by_category": dist,
+                                       "branches_reached (counted by the harness with the real parser / classifyRequest before each call)": ctx.extra.get("branch_counters", {})}
     ctx.extra["end_to_end"] = counts
     ctx.extra["partial_hypotheses"] = {"F28 (OneInFlight fails: pipelined connection answered out of order or cut by an overtaking close)": counts.get("pipelined_out_of_order_or_lost", 0)}
+    try:
+        import vlib.core as _vc
+        gtxt = open(os.path.join(_vc.LEAN, "IoraModel", "Gen", "HttpRespond.lean")).read()
+        m = re.search(r"def sessionFieldWrites : Nat := (\d+)", gtxt)
+        ctx.extra["observations"] = {"session_field_writes": int(m.group(1)) if m else None,
+                                     "meaning": "assignments to SessionInfo::httpVersion / connectionKeepAlive anywhere in http_server.hpp; 0 = HTTP/1.0 requests are kept alive unless they say Connection: close"}
+    except OSError:
+        pass
     ctx.extra["repo_tree_sha"] = ctx.repo_tree_sha(ANCHOR_FILES)
-    ctx.extra["refuted"] = [{"statement": "Iora.C16.O3_statement", "finding": "F28"}, {"statement": "Iora.C16.O4p_statement", "finding": "F31"}]
+    ctx.extra["refuted"] = [{"statement": "Iora.C16.O3_statement", "finding": "F28"}, {"statement": "Iora.C16.O4p_statement", "finding": "F31"},
+                            {"statement": "Iora.C16.O4_head_statement", "finding": "FC16d"}]
     ctx.extra["not_proved"] = NOT_PROVED
     ctx.assumptions += ["the arrivals of the O1/O2/O3 theorems are the complete requests the server's extractor (handleIncomingData / findChunkedRequestEnd) hands to the pool: "
                         "that extraction is exact — every encoded request, once, with its decoded body — is property C15's, not proved here; C16 ties it by lockstep "
@@ -1452,7 +1641,10 @@ def run(ctx: Ctx):
                         "dispatch count of every end-to-end scenario (requests encoded by the generator = tasks taken by pool workers, counted at `tp:popped`)",
                         "one engine Send command is written contiguously and commands of a session are processed in enqueue order (C01)",
                         "every engine command of a worker is issued inside one `_mutex` critical section; the task queue is FIFO (ThreadPool::_tasks is a std::queue popped under its mutex)",
-                        "handlers are modelled as functions of (request, pre-filled response) that return or throw; the subclass seams (onUpgradeRequest, onResponseSuppressed) return a value or throw (std::exception or any other type)",
+                        "handlers are modelled as functions of (request, pre-filled response) that return or throw; the three virtual hooks (onUpgradeRequest, onResponseSuppressed, and onUpgradedData as "
+                        "called by the upgrade arm's buffer drain) return a value or throw (std::exception or any other type)",
+                        "requests that the FRAMING layer of handleIncomingData rejects (oversized header block, conflicting Content-Length, malformed chunking, buffer limit) end in closeSession without a "
+                        "response: that `unparseable => close` half of the clause is property C15's (its S3/S6 monitors); C16's monitors see only requests the extractor hands on",
                         "status codes are C++ `int`; the model uses unbounded integers",
                         "\"C\" locale for ::tolower / std::isalpha (the library never calls setlocale)"]
     return ctx.finish(level="proof", rule="a case = one op list (fresh routing table + scripted handlers + 2-7 requests through the real processHttpRequest behind a capturing engine), "
